@@ -36,7 +36,6 @@ ASSUMPTIONS = ['a kind signature that does not compile in the unchanged tree is 
                'a failure type returned for compile-time-constant arguments (meta::is_fail_v) counts as the refusal `nothing`',
                'input values are sampled; extents are small (<= 9 per axis for constant kinds)']
 PARTIAL = []
-KNOWN_PREDICATES = {}
 
 MAX_JOBS = min(6, int(os.environ.get('VERIF_JOBS', '6')))
 CASES_PER_TU = 220
@@ -48,11 +47,20 @@ def fmt(l):
 
 
 def canon(a):
-    return 'nothing' if a == 'fail-type' else a
+    # a failure type for constant arguments is the compile-time refusal; the None shape is the empty shape
+    if a == 'fail-type':
+        return 'nothing'
+    if a == 'ok None':
+        return 'ok []'
+    return a
 
 
 def same(a, b):
-    return canon(a) == canon(b)
+    a, b = canon(a), canon(b)
+    # a refusal of constant arguments may surface as a compile error (static_assert / failure type misuse)
+    if {a, b} == {'compile-error:ct', 'nothing'}:
+        return True
+    return a == b
 
 
 # ------------------------------------------------------------------------------------------------
@@ -110,6 +118,355 @@ REFS['compute_indices'] = Ref(
     fixed=[[23, [2, 3, 4]], [4, [3, 2]]])
 
 
+
+def _np_shape(f):
+    try:
+        return 'ok ' + fmt(f())
+    except Exception:
+        return 'nothing'
+
+
+def _perm(rng, n):
+    p = list(range(n)); rng.shuffle(p); return p
+
+
+def _gen_reshape(rng):
+    s = rshape(rng, 1, 4, emax=4)
+    n = int(np.prod(s))
+    # a random factorisation of n, possibly with one -1, sometimes spoiled
+    fac = []
+    rem = n
+    while rem > 1 and len(fac) < 3:
+        ds = [d for d in range(1, rem + 1) if rem % d == 0]
+        d = rng.choice(ds); fac.append(d); rem //= d
+    fac.append(rem)
+    rng.shuffle(fac)
+    mode = rng.random()
+    if mode < 0.4:
+        fac[rng.randrange(len(fac))] = -1
+    elif mode < 0.55:
+        fac[rng.randrange(len(fac))] += 1          # wrong element count -> refused
+    elif mode < 0.65 and len(fac) >= 2:
+        fac[0] = -1; fac[1] = -1                   # two -1 -> refused
+    return [s, fac]
+
+
+REFS['shape_reshape'] = Ref(
+    lambda v: _np_shape(lambda: np.empty(v[0], dtype=np.int8).reshape(v[1]).shape),
+    lambda v: 'k9_reshape shape=%s newshape=%s' % (fmt(v[0]), fmt(v[1])),
+    _gen_reshape,
+    fixed=[[[2, 3, 4], [4, -1]], [[12], [3, 4]], [[2, 3, 2], [5, -1]], [[6], [-1, -1]]])
+
+
+def _gen_transpose(rng):
+    s = rshape(rng, 1, 4)
+    return [s, None if rng.random() < 0.25 else _perm(rng, len(s))]
+
+
+REFS['shape_transpose'] = Ref(
+    lambda v: _np_shape(lambda: np.transpose(np.empty(v[0], dtype=np.int8), v[1]).shape),
+    lambda v: 'k9_transpose shape=%s axes=%s' % (fmt(v[0]), 'None' if v[1] is None else fmt(v[1])),
+    _gen_transpose,
+    fixed=[[[2, 3, 4], [2, 0, 1]], [[2, 3, 4], None], [[5, 2], [1, 0]]])
+
+
+def _bpartner(rng, s, spoil=False):
+    """a shape broadcast-compatible with s (delete leading axes / set axes to 1 / add leading axes)"""
+    t = list(s)
+    for k in range(len(t)):
+        if rng.random() < 0.4:
+            t[k] = 1
+    cut = rng.randint(0, len(t) - 1) if len(t) > 1 else 0
+    t = t[cut:]
+    if rng.random() < 0.3:
+        t = [rng.randint(1, 3)] + [1] * (len(s) - len(t)) + t
+    if spoil:
+        k = rng.randrange(len(t))
+        ref = s[len(s) - len(t) + k] if len(t) <= len(s) else 2
+        t[k] = ref + 1 if ref > 1 else t[k]
+        if t[k] == 1:
+            t[k] = 1
+    return t
+
+
+def _gen_bshape(rng):
+    s = rshape(rng, 1, 4, emax=4)
+    t = _bpartner(rng, s, spoil=rng.random() < 0.2)
+    return [s, t] if rng.random() < 0.5 else [t, s]
+
+
+REFS['broadcast_shape'] = Ref(
+    lambda v: _np_shape(lambda: np.broadcast_shapes(tuple(v[0]), tuple(v[1]))),
+    lambda v: 'k9_broadcast_shape shapes=%s;%s' % (fmt(v[0]), fmt(v[1])),
+    _gen_bshape,
+    fixed=[[[2, 1, 4], [3, 1]], [[2, 3, 4], [2, 1]], [[1], [3, 2]], [[4], [4]]])
+
+
+def _gen_bshape3(rng):
+    s = rshape(rng, 1, 4, emax=4)
+    return [_bpartner(rng, s), s, _bpartner(rng, s, spoil=rng.random() < 0.15)]
+
+
+REFS['broadcast_shape3'] = Ref(
+    lambda v: _np_shape(lambda: np.broadcast_shapes(*[tuple(x) for x in v])),
+    lambda v: 'k9_broadcast_shape shapes=%s' % ';'.join(fmt(x) for x in v),
+    _gen_bshape3,
+    fixed=[[[2, 1, 4], [3, 1], [1]]])
+
+
+def _bto_oracle(v):
+    a, b = v
+    try:
+        r = np.broadcast_to(np.empty(a, dtype=np.int8), b).shape
+    except Exception:
+        return 'nothing'
+    off = len(b) - len(a)
+    mask = [1 if (k < off or a[k - off] != b[k]) else 0 for k in range(len(b))]
+    return 'ok (%s),(%s)' % (fmt(r), fmt(mask))
+
+
+def _gen_bto(rng):
+    b = rshape(rng, 1, 4, emax=4)
+    a = _bpartner(rng, b, spoil=rng.random() < 0.2)
+    if len(a) > len(b) and rng.random() < 0.7:
+        a = a[len(a) - len(b):]
+    return [a, b]
+
+
+REFS['shape_broadcast_to'] = Ref(
+    _bto_oracle,
+    lambda v: 'k9_broadcast_to ashape=%s bshape=%s' % (fmt(v[0]), fmt(v[1])),
+    _gen_bto,
+    fixed=[[[3, 1], [2, 3, 4]], [[3, 2], [2, 3, 4]], [[1], [5]], [[2, 3], [2, 3]]])
+
+
+REFS['shape_tile'] = Ref(
+    lambda v: _np_shape(lambda: np.tile(np.empty(v[0], dtype=np.int8), v[1]).shape),
+    lambda v: 'k9_tile shape=%s reps=%s' % (fmt(v[0]), fmt(v[1])),
+    lambda rng: [rshape(rng, 1, 3, emax=3), rshape(rng, 1, 4, emax=3)],
+    fixed=[[[2, 3], [2, 1, 2]], [[2, 3, 2], [2]], [[4], [3]]])
+
+
+def _gen_axis(rng, n, allow_none=True, neg=True):
+    if allow_none and rng.random() < 0.2:
+        return None
+    a = rng.randrange(n)
+    return a - n if (neg and rng.random() < 0.35) else a
+
+
+REFS['shape_repeat'] = Ref(
+    lambda v: _np_shape(lambda: np.repeat(np.empty(v[0], dtype=np.int8), v[1], v[2]).shape),
+    lambda v: 'k9_repeat shape=%s repeats=%d axis=%s' % (fmt(v[0]), v[1], 'None' if v[2] is None else str(v[2])),
+    lambda rng: (lambda s: [s, rng.randint(1, 3), _gen_axis(rng, len(s), neg=False)])(rshape(rng, 1, 3, emax=4)),
+    fixed=[[[2, 3], 2, 1], [[2, 3], 2, None], [[2, 3, 2], 3, 0]])
+
+
+def _gen_repeat_l(rng):
+    s = rshape(rng, 1, 3, emax=3)
+    ax = _gen_axis(rng, len(s), allow_none=False, neg=False)
+    n = s[ax]
+    return [s, [rng.randint(0, 3) for _ in range(n)], ax]
+
+
+REFS['shape_repeat_l'] = Ref(
+    lambda v: _np_shape(lambda: np.repeat(np.empty(v[0], dtype=np.int8), v[1], v[2]).shape),
+    lambda v: 'k9_repeat shape=%s repeats=%s rlist=1 axis=%s' % (fmt(v[0]), fmt(v[1]), 'None' if v[2] is None else str(v[2])),
+    _gen_repeat_l,
+    fixed=[[[2, 3], [1, 2, 3], 1], [[2, 2], [2, 1], 0]])
+
+
+def _rd_oracle(v):
+    s, ax, kd = v
+    axis = None if ax is None else (tuple(ax) if isinstance(ax, (list, tuple)) else ax)
+    return _np_shape(lambda: np.sum(np.empty(s, dtype=np.int8), axis=axis, keepdims=bool(kd)).shape)
+
+
+def _gen_rd(rng):
+    s = rshape(rng, 1, 4, emax=4)
+    if rng.random() < 0.15:
+        ax = None
+    else:
+        k = rng.randint(1, len(s))
+        ax = rng.sample(range(len(s)), k)
+        ax = [a - len(s) if rng.random() < 0.3 else a for a in ax]
+    return [s, ax, rng.random() < 0.5]
+
+
+REFS['remove_dims'] = Ref(
+    _rd_oracle,
+    lambda v: 'k9_remove_dims shape=%s axis=%s keepdims=%d' % (fmt(v[0]), 'None' if v[1] is None else fmt(v[1]), int(v[2])),
+    _gen_rd,
+    fixed=[[[2, 3, 4], [0, 2], False], [[2, 3, 4], [1], True], [[2, 3, 4], None, False], [[2, 3], [-1], False], [[2, 3], [1, 0], False]])
+REFS['remove_dims_s'] = Ref(
+    _rd_oracle,
+    lambda v: 'k9_remove_dims shape=%s axis=%d keepdims=%d' % (fmt(v[0]), v[1], int(v[2])),
+    lambda rng: (lambda s: [s, _gen_axis(rng, len(s), allow_none=False), rng.random() < 0.5])(rshape(rng, 1, 4, emax=4)),
+    fixed=[[[2, 3, 4], 1, False], [[2, 3, 4], -1, True], [[5], 0, False]])
+
+
+def _na_oracle(v):
+    ax, nd = v
+    from numpy.lib.array_utils import normalize_axis_index
+    try:
+        if isinstance(ax, (list, tuple)):
+            return 'ok ' + fmt([normalize_axis_index(a, nd) for a in ax])
+        return 'ok %d' % normalize_axis_index(ax, nd)
+    except Exception:
+        return 'nothing'
+
+
+def _gen_na(rng):
+    nd = rng.randint(1, 5)
+    k = rng.randint(1, nd)
+    ax = rng.sample(range(nd), k)
+    ax = [a - nd if rng.random() < 0.4 else a for a in ax]
+    if rng.random() < 0.2:
+        ax[rng.randrange(k)] = rng.choice([nd, nd + 1, -nd - 1])
+    return [ax, nd]
+
+
+REFS['normalize_axis'] = Ref(
+    _na_oracle,
+    lambda v: 'k9_normalize_axis axis=%s ndim=%d' % (fmt(v[0]), v[1]),
+    _gen_na,
+    fixed=[[[-1, 0], 3], [[3, 0], 3], [[0, 1, 2], 3], [[-4], 3]])
+REFS['normalize_axis_s'] = Ref(
+    _na_oracle,
+    lambda v: 'k9_normalize_axis scalar=1 axis=%d ndim=%d' % (v[0], v[1]),
+    lambda rng: (lambda nd: [rng.randint(-nd - 1, nd), nd])(rng.randint(1, 5)),
+    fixed=[[-1, 3], [3, 3], [-4, 3], [0, 1]])
+
+
+def _gen_cat(rng):
+    a = rshape(rng, 1, 3, emax=4)
+    if rng.random() < 0.2:
+        return [a, rshape(rng, 1, 3, emax=4), None]
+    ax = _gen_axis(rng, len(a), allow_none=False, neg=False)
+    b = list(a); b[ax] = rng.randint(1, 4)
+    if rng.random() < 0.2:
+        k = rng.randrange(len(a)); b[k] += 1
+    return [a, b, ax]
+
+
+REFS['shape_concatenate'] = Ref(
+    lambda v: _np_shape(lambda: np.concatenate((np.empty(v[0], dtype=np.int8), np.empty(v[1], dtype=np.int8)), axis=v[2]).shape),
+    lambda v: 'k9_concatenate ashape=%s bshape=%s axis=%s' % (fmt(v[0]), fmt(v[1]), 'None' if v[2] is None else str(v[2])),
+    _gen_cat,
+    fixed=[[[2, 3], [4, 3], 0], [[2, 3], [4, 3], None], [[2, 3], [4, 2], 0], [[2, 3, 2], [2, 1, 2], 1]])
+
+
+def _pad_oracle(v):
+    s, pw = v
+    d = len(s)
+    if len(pw) != 2 * d:
+        return 'nothing'
+    return _np_shape(lambda: np.pad(np.empty(s, dtype=np.int8), [(pw[k], pw[d + k]) for k in range(d)]).shape)
+
+
+REFS['shape_pad'] = Ref(
+    _pad_oracle,
+    lambda v: 'k9_pad shape=%s pad_width=%s' % (fmt(v[0]), fmt(v[1])),
+    lambda rng: (lambda s: [s, [rng.randint(0, 2) for _ in range(2 * len(s) - (1 if rng.random() < 0.15 else 0))]])(rshape(rng, 1, 3, emax=4)),
+    fixed=[[[2, 3], [0, 2, 1, 0]], [[2, 3], [0, 2, 1]], [[4], [1, 1]]])
+
+
+
+# ------------------------------------------------------------------------------------------------
+# known findings: predicates over the INPUT CLASS of a case (operation, values, kinds, clipped bounds)
+# ------------------------------------------------------------------------------------------------
+FIXED_LEN_KINDS = {'ct', 'cl', 'a', 'raw', 'tup', 'f', 'utla', 'ba'}
+BOUNDED_LEN_KINDS = {'sv', 'h', 'bsv'}
+
+
+def parse_req(req):
+    """request line -> dict(op, build, mode, salt, kinds=[...], args={name: value}, argkind={name: kind})"""
+    parts = dict(p.split('=', 1) for p in req.split(' ')[1:] if '=' in p)
+    op = parts['op']
+    o = G.OPS[op]
+    kinds = parts['kinds'].split('/')
+    args, argkind = {}, {}
+    for (an, vt), k in zip(o.args, kinds):
+        t = parts[an]
+        if t == 'None':
+            v = None
+        elif vt in ('L', 'I', 'A'):
+            v = [] if t == '[]' else [int(x) for x in t.split(',')]
+        else:
+            v = int(t)
+        args[an] = v; argkind[an] = k
+    return dict(op=op, build=parts['build'], mode=parts['mode'], salt=int(parts['salt']), kinds=kinds, args=args, argkind=argkind,
+                argpos={an: j for j, (an, vt) in enumerate(o.args)}, argtype={an: vt for an, vt in o.args})
+
+
+def clipped_bounds(r, an):
+    """[(lo, hi)] of the clipped elements of argument `an` as the generator spelled them"""
+    v = r['args'][an]
+    signed = r['argtype'][an] == 'I'
+    base = r['salt'] + 5 * r['argpos'][an]
+    return [G.cl_bounds(x, base + j, signed) for j, x in enumerate(v)]
+
+
+def kf_remove_dims_runtime_keepdims(c):
+    """remove_dims with a RUN-TIME keepdims flag: the result container is sized from the TYPE of keepdims
+    (true_type / false_type), so keepdims=true on a fixed- or bounded-length shape overflows the result, and
+    axis=None with keepdims=false leaves rank dim-1 instead of 0"""
+    r = parse_req(c.req)
+    if r['op'] not in ('remove_dims', 'remove_dims_s') or r['argkind']['keepdims'] != 'rt':
+        return False
+    if r['args']['axis'] is None:
+        return r['args']['keepdims'] == 0
+    return r['args']['keepdims'] == 1 and r['argkind']['shape'] in (FIXED_LEN_KINDS | BOUNDED_LEN_KINDS)
+
+
+def kf_normalize_axis_clipped_negative(c):
+    """normalize_axis with a tuple of clipped integers holding a negative or out-of-range axis: the element type is
+    taken as unsigned, the value passes through un-normalised and is never refused"""
+    r = parse_req(c.req)
+    if r['op'] != 'normalize_axis' or r['argkind']['axis'] != 'cl':
+        return False
+    nd = r['args']['ndim']
+    return any(a < 0 or a >= nd for a in r['args']['axis'])
+
+
+def kf_reshape_clipped_bounds(c):
+    """shape_reshape with a clipped source or target shape: the result bounds / the acceptance are computed from the
+    BOUNDS of the clipped integers: a `-1` slot is clamped to its own bound, and a valid request whose bounds do not
+    multiply to the same element count yields a failure type"""
+    r = parse_req(c.req)
+    if r['op'] != 'shape_reshape':
+        return False
+    if r['argkind']['newshape'] == 'cl' and any(d == -1 for d in r['args']['newshape']):
+        return True
+    if 'cl' not in (r['argkind']['shape'], r['argkind']['newshape']):
+        return False
+    # bounds not tight somewhere
+    slack = False
+    for an in ('shape', 'newshape'):
+        if r['argkind'][an] == 'cl':
+            slack |= any(hi != v for (lo, hi), v in zip(clipped_bounds(r, an), r['args'][an]))
+    return slack
+
+
+def kf_broadcast_clipped_one_with_slack(c):
+    """broadcast_shape where a clipped shape holds an extent 1 whose bound is > 1: the result bound of that axis is
+    taken from the clipped operand alone, so the extent contributed by the other operand is clamped"""
+    r = parse_req(c.req)
+    if r['op'] not in ('broadcast_shape', 'broadcast_shape3'):
+        return False
+    for an, k in r['argkind'].items():
+        if k == 'cl' and any(v == 1 and hi > 1 for (lo, hi), v in zip(clipped_bounds(r, an), r['args'][an])):
+            return True
+    return False
+
+
+KNOWN_PREDICATES = {
+    'remove_dims_runtime_keepdims': kf_remove_dims_runtime_keepdims,
+    'normalize_axis_clipped_negative': kf_normalize_axis_clipped_negative,
+    'reshape_clipped_bounds': kf_reshape_clipped_bounds,
+    'broadcast_clipped_one_with_slack': kf_broadcast_clipped_one_with_slack,
+}
+
+
 # ------------------------------------------------------------------------------------------------
 # the plan: requests x kind assignments x builds -> TUs
 # ------------------------------------------------------------------------------------------------
@@ -145,13 +502,16 @@ def requests(tier, seed):
     return res
 
 
-def supported(pins, build, op):
-    return set(pins.get(build, {}).get(op, {}).get('supported', []))
+def supported(pins, build, op, refusal=False):
+    e = pins.get(build, {}).get(op, {})
+    if refusal:
+        return set(e.get('supported_refusal', [])) & set(e.get('supported', []))
+    return set(e.get('supported', []))
 
 
 def assignments(op, vals, build, rng, tier, pins, todo_sigs):
     """kind assignments (kinds, mode) of one request in one build"""
-    sup = supported(pins, build, op)
+    sup = supported(pins, build, op, refusal=(REFS[op].oracle(vals) == 'nothing'))
     allk = G.all_assignments(op, vals, build)
     o = G.OPS[op]
     chosen = []
@@ -174,11 +534,11 @@ def assignments(op, vals, build, rng, tier, pins, todo_sigs):
                 seen.add((k, mode)); out.append((k, mode))
     if tier != 'quick':
         # cover every pinned signature at least once over the run
-        pend = todo_sigs.setdefault((build, op), sorted(sup))
+        pend = todo_sigs.setdefault((build, op), sorted(supported(pins, build, op)))
         take = []
         for s in list(pend):
             ks, mode = parse_sig(s)
-            if ks in allk and (mode == 'rt' or G.cx_ok(op, vals, ks)):
+            if s in sup and ks in allk and (mode == 'rt' or G.cx_ok(op, vals, ks)):
                 take.append((ks, mode)); pend.remove(s)
                 if len(take) >= 40:
                     break
@@ -218,22 +578,66 @@ def plan(tier):
     return _plan_cache[key]
 
 
-_build_notes = {}
+_compile_errors = {}      # case key+build -> compiler error excerpt (cases of this run that do not compile)
+
+
+def _ce_cache_path():
+    return os.path.join(G.GEN_DIR, 'compile_errors_%s.json' % runner.include_tree_hash()[:16])
+
+
+def _load_ce():
+    p = _ce_cache_path()
+    if os.path.exists(p):
+        try:
+            return json.load(open(p))
+        except Exception:
+            return {}
+    return {}
 
 
 def harness_specs(tier):
+    """generate the TUs, build them with a bounded number of jobs (the runner then finds them cached).  A TU that does
+    not compile is bisected (G.probe): the offending cases become stubs answering `compile-error`, so that the other
+    cases still run and the offending ones are judged like any other answer."""
     reqs, tus = plan(tier)
-    specs = []
-    for name, (build, cases) in tus.items():
-        src = G.write_tu(name, cases, build)
-        b = G.BUILDS[build]
-        specs.append(dict(name=name, src=src, flavour='fast', extra=tuple(b['extra']), compiler=b['compiler']))
-    # build here with a bounded number of jobs (the runner's own pool is wider); the runner then finds them cached
+    os.makedirs(G.GEN_DIR, exist_ok=True)
     runner.include_tree_hash()
+    ce = _load_ce()           # {build: {case key: error}} for this include tree
+
+    def build_one(name):
+        build, cases = tus[name]
+        b = G.BUILDS[build]
+        known = ce.get(build, {})
+        stubs = {c.key for c in cases if c.key in known}
+        src = G.write_tu(name, cases, build, stubs)
+        binp, log = runner.harness_build(name, src, 'fast', tuple(b['extra']), b['compiler'])
+        new = {}
+        if binp is None:
+            live = [c for c in cases if c.key not in stubs]
+            okc, bad = G.probe(live, build, name, repo=runner.REPO)
+            new = bad
+            stubs |= set(bad)
+            src = G.write_tu(name, cases, build, stubs)
+            binp, log = runner.harness_build(name, src, 'fast', tuple(b['extra']), b['compiler'])
+        return name, build, src, new, {k: known[k] for k in stubs if k in known}
+
+    specs = []
     with ThreadPoolExecutor(max_workers=MAX_JOBS) as ex:
-        futs = [ex.submit(runner.harness_build, s['name'], s['src'], s['flavour'], s['extra'], s['compiler']) for s in specs]
-        for f in futs:
-            f.result()
+        for name, build, src, new, old in ex.map(build_one, list(tus)):
+            b = G.BUILDS[build]
+            specs.append(dict(name=name, src=src, flavour='fast', extra=tuple(b['extra']), compiler=b['compiler']))
+            for k, v in list(new.items()) + list(old.items()):
+                _compile_errors[(build, k)] = v
+            if new:
+                ce.setdefault(build, {}).update(new)
+    with open(_ce_cache_path(), 'w') as f:
+        json.dump(ce, f, indent=0, sort_keys=True)
+    for fn in os.listdir(G.GEN_DIR):
+        if fn.startswith('probe_'):
+            try:
+                os.remove(os.path.join(G.GEN_DIR, fn))
+            except OSError:
+                pass
     return specs
 
 
@@ -266,6 +670,12 @@ def post(cases, tier):
             answers.setdefault(canon(c.impl), []).append(c)
         if len(answers) > 1:
             bad.append((rk, answers))
+    if os.environ.get('K9_DEBUG'):
+        with open(os.environ['K9_DEBUG'], 'w') as f:
+            for c in cases:
+                if c.impl is not None and c.oracle is not None and not same(c.impl, c.oracle):
+                    f.write('%s -> impl=%s expected=%s err=%s\n' % (c.req, c.impl, c.oracle, _compile_errors.get(
+                        (c.req.split(' build=')[1].split(' ')[0], c.req.split(' id=')[1].split(' ')[0]), '')))
     _stats['groups'] = len(groups)
     _stats['disagreeing_groups'] = len(bad)
     return out
